@@ -366,7 +366,9 @@ class WaitIterator:
         self.current_future: Future | None = None
         self._running_future: Future | None = None
 
-        for future in futures:
+        # One callback per distinct future: an input given more than once is
+        # a single key of _unfinished and is yielded once.
+        for future in list(self._unfinished):
             future_add_done_callback(future, self._done_callback)
 
     def done(self) -> bool:
